@@ -143,6 +143,12 @@ int32_t jls_buf_string_save(struct jls_buf_s * self, const char * cstr_in, char 
     }
     size_t sz = strlen(cstr_in) + 1;
     struct jls_buf_strings_s * s = self->strings_tail;
+    if (sz >= sizeof(s->buffer)) {
+        if (NULL != cstr_save) {
+            *cstr_save = NULL;
+        }
+        return JLS_ERROR_TOO_BIG;  // a string must fit into one block
+    }
     char * buf_end = s->buffer + sizeof(s->buffer) - 1;
     if ((size_t) (buf_end - s->cur) < sz) {
         ROE(strings_alloc(self));
@@ -292,13 +298,19 @@ int32_t jls_buf_rd_str(struct jls_buf_s * self, const char ** value) {
     char ch;
     while (self->cur != self->end) {
         if (s->cur >= buf_end) {
-            ROE(strings_alloc(self));
-            // copy over partial.
-            while (str <= buf_end) {
-                *self->strings_tail->cur++ = *str++;
+            size_t partial = (size_t) (s->cur - str);
+            if ((partial + 1) >= sizeof(s->buffer)) {
+                *value = NULL;
+                return JLS_ERROR_TOO_BIG;  // a string must fit into one block
             }
+            ROE(strings_alloc(self));
+            // move the partial string to the new block and continue there
+            memcpy(self->strings_tail->cur, str, partial);
+            self->strings_tail->cur += partial;
+            s->cur = str;
             s = self->strings_tail;
-            str = self->strings_tail->buffer;
+            str = s->buffer;
+            buf_end = s->buffer + sizeof(s->buffer) - 1;
         }
 
         ch = (char) *self->cur++;
